@@ -94,12 +94,12 @@ fn simplify(st: &Step) -> Vec<Step> {
                 out.push(Step::Sign { s: *s, m: simcore::B(m.0[..m.0.len() / 2].to_vec()), mode: *mode, ctx: ctx.clone(), ch: ch.clone() });
             }
         }
-        Step::Ver { mode, key, m, sig, ctx, ch, chosen, d, ksrc } => {
+        Step::Ver { mode, key, m, sig, ctx, ch, chosen, d, ksrc, hon } => {
             if !ch.is_empty() {
-                out.push(Step::Ver { mode: *mode, key: key.clone(), m: m.clone(), sig: sig.clone(), ctx: ctx.clone(), ch: vec![], chosen: chosen.clone(), d: *d, ksrc: *ksrc });
+                out.push(Step::Ver { mode: *mode, key: key.clone(), m: m.clone(), sig: sig.clone(), ctx: ctx.clone(), ch: vec![], chosen: chosen.clone(), d: *d, ksrc: *ksrc, hon: *hon });
             }
             if *d != 0 {
-                out.push(Step::Ver { mode: *mode, key: key.clone(), m: m.clone(), sig: sig.clone(), ctx: ctx.clone(), ch: ch.clone(), chosen: chosen.clone(), d: 0, ksrc: *ksrc });
+                out.push(Step::Ver { mode: *mode, key: key.clone(), m: m.clone(), sig: sig.clone(), ctx: ctx.clone(), ch: ch.clone(), chosen: chosen.clone(), d: 0, ksrc: *ksrc, hon: *hon });
             }
         }
         _ => {}
